@@ -1,4 +1,6 @@
 import SaVerif.Lemmas.TxnSim
+import SaVerif.Lemmas.TxnCtx
+import SaVerif.Lemmas.TxnDisc
 /-!
 # C23 — Connection transactions and savepoints have nested-transaction semantics
 
@@ -200,6 +202,7 @@ theorem close_rolls_back_all {c : Conn} {s : Spec} (h : Sim c s) :
         simp only [Conn.tClose, sim_root_isRoot h hr, if_true]
         rw [← hok]
       simp only [Conn.close, htr, e, andThen_ok]
+      exact releaseOrInterrupt_nofault _ _ h'.nofault
     have hact : c.act t = true := (h.rootOk t hr).2.2
     rw [hcl, hact]
     have hd := h'.dbapi
@@ -238,7 +241,9 @@ theorem close_rolls_back_all {c : Conn} {s : Spec} (h : Sim c s) :
         simp [Conn.release, hd, DB.checkin, hrs, takeFault_nil _ _ hnf, DB.commit, hidle, hwork', hsv]
   | none =>
     have htr : c.transaction = none := by rw [h.root, hr]
-    have hcl : c.close = (c.release false, .ok) := by simp [Conn.close, htr]
+    have hcl : c.close = (c.release false, .ok) := by
+      simp only [Conn.close, htr]
+      exact releaseOrInterrupt_nofault _ _ h.nofault
     rw [hcl]
     have hd := h.dbapi
     have hnf := h.nofault
@@ -257,6 +262,88 @@ theorem close_rolls_back_all {c : Conn} {s : Spec} (h : Sim c s) :
         simp [Conn.release, hd, DB.checkin, hrs, takeFault_nil _ _ hnf, DB.commit, DB.rollback,
           hwc, h.committed, h.savesNone hr]
 
+
+/-! ## context managers (`with conn.begin(): …`, `with conn.begin_nested(): …`)
+
+For EVERY state (reachable or not, faults armed or not). -/
+
+theorem exit_eq (c : Conn) (h : Nat) (e : Bool) :
+    c.exit h e = andFinally (c.exitBody h e)
+      (fun c1 => c1.exitFinally h (!(c.txn h).subject || c.ctxMgr != some h)) := rfl
+
+/-- **ctx_exit_semantics** (what `__exit__` does to the transaction): without an exception
+    and while the transaction is active it is `commit()` (and `rollback()` if the commit
+    raises, the rollback's own error taking precedence); with an exception it is
+    `rollback()`; on a transaction that has already ended it is at most a `close()` of a
+    detached object.  The result raised is exactly that call's result. -/
+theorem ctx_exit_semantics (c : Conn) (h : Nat) :
+    (c.act h = true → (c.exit h false).2 = (c.commitOrRollback h).2 ∧
+                      (c.exit h true).2 = (c.tRollback h).2) ∧
+    (c.act h = false → c.attached h = true → ∀ e, (c.exit h e).2 = .ok) := by
+  refine ⟨fun ha => ?_, fun ha hat e => ?_⟩
+  · simp [exit_eq, Conn.exitBody, ha, andFinally]
+  · cases e <;> simp [exit_eq, Conn.exitBody, ha, hat, andFinally]
+
+/-- **ctx_exit_restores**: leaving a `with` block (normally or by an exception, whatever the
+    commit / rollback did or raised) puts the enclosing context manager back on the
+    Connection and clears the slots of the transaction object. -/
+theorem ctx_exit_restores (c : Conn) (h : Nat) (e : Bool) (hlt : h < c.txns.length)
+    (hs : (c.txn h).subject = true) (hm : c.ctxMgr = some h) :
+    (c.exit h e).1.ctxMgr = (c.txn h).outerCtx ∧
+    ((c.exit h e).1.txn h).subject = false ∧ ((c.exit h e).1.txn h).outerCtx = none := by
+  have hk := exitBody_ctx c h e
+  have hoob : (!(c.txn h).subject || c.ctxMgr != some h) = false := by simp [hs, hm]
+  have hlt1 : h < (c.exitBody h e).1.txns.length := Nat.lt_of_lt_of_le hlt hk.len
+  rw [exit_eq, hoob]
+  simp only [andFinally, Conn.exitFinally, Bool.not_false, if_true]
+  refine ⟨?_, ?_, ?_⟩
+  · show ((c.exitBody h e).1.txn h).outerCtx = _
+    exact (hk.keep h hlt).1
+  · rw [setTxn_txn_eq _ _ _ (by exact hlt1)]
+  · rw [setTxn_txn_eq _ _ _ (by exact hlt1)]
+
+/-- entering and leaving a `with` block leaves `_trans_context_manager` as it was -/
+theorem ctx_enter_exit_roundtrip (c : Conn) (h : Nat) (e : Bool) (hlt : h < c.txns.length) :
+    ((c.enter h).1.exit h e).1.ctxMgr = c.ctxMgr := by
+  have h1 : (c.enter h).1.ctxMgr = some h := rfl
+  have hlt' : h < (c.enter h).1.txns.length := by simp [Conn.enter]; exact hlt
+  have h2 : ((c.enter h).1.txn h) = { c.txn h with outerCtx := c.ctxMgr, subject := true } := by
+    show (c.setTxn h _).txn h = _
+    exact setTxn_txn_eq _ _ _ hlt
+  have := (ctx_exit_restores (c.enter h).1 h e hlt' (by rw [h2]) h1).1
+  rw [this, h2]
+
+/-- **ctx_blocks_use_after_end**: inside a `with` block whose transaction has already ended
+    (committed, rolled back, or closed inside the block) `begin()` and `begin_nested()` raise
+    InvalidRequestError and change nothing ("Can't operate on closed transaction inside
+    context manager"). -/
+theorem ctx_blocks_use_after_end (c : Conn) (m : Nat) (hm : c.ctxMgr = some m) (ha : c.act m = false) :
+    c.begin = (c, .invalidRequest) ∧ c.beginNested = (c, .invalidRequest) := by
+  have hcr : c.ctxRaises = true := by simp [Conn.ctxRaises, hm, ha]
+  have hb : c.begin = (c, .invalidRequest) := by
+    unfold Conn.begin Conn.beginRoot
+    split <;> simp [hcr]
+  refine ⟨hb, ?_⟩
+  unfold Conn.beginNested Conn.autobegin
+  cases ht : c.transaction with
+  | none => simp [hb, andThen]
+  | some t => simp [andThen, hcr]
+
+/-! ## structural invariants of the handle graph, for EVERY history (misuse and faults included) -/
+
+/-- **wf_all**: in every reachable state the connection's transaction pointer names a
+    RootTransaction object, every `_previous_nested` link points to an older object and the
+    current savepoint object exists — whatever sequence of operations (all 23 kinds, armed
+    faults, misuse) led there. -/
+theorem wf_all (rs : ResetStyle) (ls : Listener) (eo : List Bool) (ops : List Op) :
+    WFc ((Conn.connect (DB.init rs ls eo)).run ops) :=
+  run_wfc ops _ (wfc_empty rfl rfl rfl)
+
+/-- consequence: cancelling the savepoints from any reachable state always empties
+    `_nested_transaction` (the `_cancel` recursion reaches the end of the chain) -/
+theorem cancel_reaches_end (rs : ResetStyle) (ls : Listener) (eo : List Bool) (ops : List Op) :
+    ((Conn.connect (DB.init rs ls eo)).run ops).cancelNested.nested = none :=
+  cancelNested_none (wf_all rs ls eo ops).2
 
 /-! ## where the unrestricted statement fails (findings F8, F18)
 
